@@ -34,6 +34,18 @@ Theorem venom_deploy_correct : forall src d codelen imm runtime immvals (m : mem
 Proof. exact venom_deploy_correct_model. Qed.
 Print Assumptions venom_deploy_correct.
 
+(* the two instruction-level variants: MCOPY (cancun+) and the identity-precompile STATICCALL (pre-cancun) *)
+Theorem venom_deploy_correct_cancun : forall src d codelen imm runtime immvals (m : mem),
+  zlen runtime = codelen -> zlen immvals = imm -> mread m src (Z.to_nat imm) = immvals ->
+  venom_epilogue_cancun src d codelen imm runtime m = runtime ++ immvals.
+Proof. exact venom_cancun_correct_model. Qed.
+
+Theorem venom_deploy_correct_precancun : forall src d codelen imm runtime immvals (m : mem),
+  zlen runtime = codelen -> zlen immvals = imm -> mread m src (Z.to_nat imm) = immvals ->
+  venom_epilogue_precancun src d codelen imm runtime m = runtime ++ immvals.
+Proof. exact venom_precancun_correct_model. Qed.
+Print Assumptions venom_deploy_correct_precancun.
+
 (* the 10-byte stub returns exactly the payload, for every payload shorter than 2^16; the payload of a
    blueprint is FE 71 00 ++ initcode, so code_offset = 3 recovers the initcode *)
 Theorem blueprint_stub_correct : forall initcode bp,
